@@ -10,4 +10,5 @@ CONSTANTS
   QCap = 0
   Gating = FALSE
   QfRet = TRUE
+  LexG = "full"
 CHECK_DEADLOCK FALSE
